@@ -65,9 +65,13 @@ def confirm(d):
                 shutil.copytree(src, os.path.join(target_dir, f), dirs_exist_ok=True)
             else:
                 shutil.copy(src, os.path.join(target_dir, f))
-        cmd = re.sub(r"/tmp/mut/(?:R\d)?" + meta["property"] + r"\b", wt, meta["demo_cmd"].replace("<repo>", wt))
+        cmd = re.sub(r"/tmp/mut/(?:R\d)?" + meta["property"] + r"\b", wt, meta["demo_cmd"].replace("<repo>", wt).replace("<worktree>", wt))
         # some demo commands copy their files themselves from a relative demo/ directory
         demo_cwd = d if re.search(r"(^|[;& ])cp demo/", cmd) else wt
+        # run the demo in a private network namespace as well (loopback ports on this host are congested)
+        script = os.path.join(wt, ".demo-cmd.sh")
+        open(script, "w").write("ip link set lo up; ip route add default dev lo 2>/dev/null\n" + cmd + "\n")
+        cmd = f"unshare -n sh {script}"
         rc, out = sh(cmd, demo_cwd)
         res["demo_passes_without_change"] = rc == 0
         if rc != 0:
